@@ -424,14 +424,22 @@ func TestC14Cli(t *testing.T) {
 		// keys that differ only in letter case are merged by net/http on the wire into separate lines with their own case; keep them,
 		// but values of one exact key must stay in order
 		sig, _ := json.Marshal(c)
-		vh.Case("C14.cli", string(sig), shared >= 1 || c.Lazy, "format:"+c.Format, fmt.Sprintf("lazy:%v", c.Lazy))
-		vh.Sample("C14.cli", shared >= 1, c)
+		prop := os.Getenv("VERIF_AS") // the same end-to-end run also decides C06's command-line clauses
+		if prop == "" {
+			prop = "C14"
+		}
+		opts := c.Chunked || c.MaxBody >= 0 || c.Redirects != 10
+		vh.Case(prop+".cli", string(sig), shared >= 1 || c.Lazy || opts, "format:"+c.Format, fmt.Sprintf("lazy:%v", c.Lazy), fmt.Sprintf("chunked/max-body/redirects:%v", opts))
+		vh.Sample(prop+".cli", shared >= 1, c)
 		if err := runC14Cli(c); err != nil {
-			vh.Fail(t, "C14", "C14.cli", c, err)
+			vh.Fail(t, prop, prop+".cli", c, err)
 		}
 	})
 }
 
 var _ = vegeta.ErrNoTargets
 
-func init() { vh.RegisterReplay("C14.cli", vh.Replayer(runC14Cli)) }
+func init() {
+	vh.RegisterReplay("C14.cli", vh.Replayer(runC14Cli))
+	vh.RegisterReplay("C06.cli", vh.Replayer(runC14Cli))
+}
